@@ -424,6 +424,228 @@ theorem line_ne_is_not_eq (a b : Line τ) : lineNe cfg a b = !lineEq cfg a b := 
 
 end lines
 
+/-! ## proof-deepening pass
+
+(A) equality is *value based* and eq / ne / hash are coherent for **every constructible** species and line, with the
+    mixed `Element`–`Isotope` comparison characterised exactly (it is the only place where `==` does not imply equal hashes);
+(B) the lookups are *total decision functions*: `lookup_*` answers with an object **iff** the (lower-cased) argument is one of
+    that object's identifiers — in particular nothing is ever returned for a spelling that is not an identifier. -/
+
+section deepening
+
+theorem eq_fields_cover : (∀ f : EField, f ∈ cfg.elEq) ∧ (∀ f : IField, f ∈ cfg.isoEq) := by
+  refine ⟨fun f => ?_, fun f => ?_⟩
+  · cases f <;> decide
+  · rcases f with (g | _ | _)
+    · cases g <;> decide
+    · decide
+    · decide
+
+/-- **value-based equality, all objects**: two species objects of the same exact type are `==` exactly when every
+attribute coincides (name, symbol, atomic number, the double atomic weight; for isotopes also mass number and element) —
+never by identity, never ignoring a field -/
+theorem species_eq_iff_same_value (a b : Sp) (hk : SameKind a b) : pyEq cfg a b = true ↔ a = b :=
+  pyEq_sameKind_iff eq_fields_cover.1 eq_fields_cover.2 hk
+
+example : pyEq cfg (.iso o_deuterium) (.iso (mkIsotope o_deuterium.base.name o_deuterium.base.sym o_hydrogen 2
+    (o_deuterium.base.wNum, o_deuterium.base.wDen))) = true := by decide +kernel
+
+/-- mixed pairs, all objects, either argument order: `==` holds exactly when the `Element` coincides with the
+inherited `Element` part of the `Isotope` -/
+theorem species_eq_mixed_iff (e : El) (i : Iso) :
+    (pyEq cfg (.el e) (.iso i) = true ↔ e = i.base) ∧ (pyEq cfg (.iso i) (.el e) = true ↔ e = i.base) :=
+  pyEq_mixed_iff eq_fields_cover.1 e i
+
+/-- **eq ⇒ hash, all objects, exact scope**: for species that compare equal the hash arguments coincide **iff** the
+two objects have the same exact type.  (⇐ is `element_eq_hash`/`isotope_eq_hash`; ⇒ says the mixed pair is the *only*
+incoherent case, and it always is: the tuples have 4 and 5 entries.) -/
+theorem species_eq_hash_iff_same_kind (a b : Sp) (h : pyEq cfg a b = true) :
+    spHash cfg a = spHash cfg b ↔ SameKind a b := by
+  constructor
+  · intro hh
+    cases a <;> cases b <;> simp only [SameKind]
+    · exact absurd hh (spHash_mixed_ne (by decide) _ _)
+    · exact absurd hh.symm (spHash_mixed_ne (by decide) _ _)
+  · intro hk
+    exact pyEq_hash_sameKind hash_fields_subset.1 hash_fields_subset.2.1 hk h
+
+example : SameKind (.el o_iron) (.el o_iron) ∧ pyEq cfg (.el o_iron) (.el o_iron) = true := ⟨trivial, by decide +kernel⟩
+
+/-- on the registry all three agree, mixed pairs included: `a == b ⇔ ¬(a != b) ⇔ a is b`, and `==` implies equal hashes -/
+theorem registry_eq_ne_hash_coherent (a b : Sp) (ha : a ∈ allSpecies) (hb : b ∈ allSpecies) :
+    (pyEq cfg a b = true ↔ pyNe cfg a b = false) ∧ (pyEq cfg a b = true ↔ a = b) ∧
+    (pyEq cfg a b = true → spHash cfg a = spHash cfg b) := by
+  refine ⟨?_, species_eq_iff a b ha hb, equal_species_hash_equal a b ha hb⟩
+  rw [species_ne_is_not_eq]
+  cases pyEq cfg a b <;> simp
+
+example : Sp.el o_hydrogen ∈ allSpecies ∧ Sp.iso o_protium ∈ allSpecies := by decide +kernel
+
+variable {τ : Type} [DecidableEq τ]
+
+/-- **all lines** (any species objects of the same exact type, any charge, any transition): `==` exactly when element,
+charge and transition coincide; then the hashes coincide; `!=` is its negation (`line_ne_is_not_eq`) -/
+theorem line_eq_iff_same_value (a b : Line τ) (hk : SameKind a.element b.element) :
+    lineEq cfg a b = true ↔ (a.element = b.element ∧ a.charge = b.charge ∧ a.transition = b.transition) := by
+  simp only [lineEq, List.all_eq_true]
+  constructor
+  · intro h
+    have h1 := h .element (line_eq_fields _)
+    have h2 := h .charge (line_eq_fields _)
+    have h3 := h .transition (line_eq_fields _)
+    simp only [lfEq, decide_eq_true_eq] at h1 h2 h3
+    exact ⟨(species_eq_iff_same_value _ _ hk).mp h1, h2, h3⟩
+  · rintro ⟨h1, h2, h3⟩ f _
+    cases f <;> simp [lfEq, h1, h2, h3, pyEq_refl]
+
+theorem line_eq_hash_all (a b : Line τ) (hk : SameKind a.element b.element) (h : lineEq cfg a b = true) :
+    lineHash cfg a = lineHash cfg b := by
+  obtain ⟨h1, h2, h3⟩ := (line_eq_iff_same_value a b hk).mp h
+  cases a; cases b
+  simp_all
+
+example : lineEq cfg (⟨.el o_carbon, 2, (1 : Nat)⟩ : Line Nat) ⟨.el o_carbon, 2, 1⟩ = true := by decide +kernel
+
+/-- what is **not** true, stated so the scope is explicit: a line on an `Element` and a line on an `Isotope` carrying that
+element's name, symbol and weight are `==` but hash differently (constructed objects only; `line_eq_hash` covers the registry) -/
+theorem line_mixed_witness :
+    ∃ a b : Line Nat, lineEq cfg a b = true ∧ lineHash cfg a ≠ lineHash cfg b := by
+  refine ⟨⟨.el o_hydrogen, 0, 1⟩,
+    ⟨.iso (mkIsotope o_hydrogen.name o_hydrogen.sym o_hydrogen 1 (o_hydrogen.wNum, o_hydrogen.wDen)), 0, 1⟩,
+    by decide +kernel, fun h => ?_⟩
+  have h0 : ∀ x ∈ (lineHash cfg (⟨.el o_hydrogen, 0, 1⟩ : Line Nat)), x ∈ lineHash cfg (⟨.iso (mkIsotope o_hydrogen.name
+      o_hydrogen.sym o_hydrogen 1 (o_hydrogen.wNum, o_hydrogen.wDen)), 0, 1⟩ : Line Nat) := fun x hx => h ▸ hx
+  have h1 := h0 (.sp (spHash cfg (.el o_hydrogen))) (by simp [lineHash, cfg, lfVal])
+  simp only [lineHash, List.mem_map] at h1
+  obtain ⟨f, _, hf⟩ := h1
+  cases f <;> simp only [lfVal, LHVal.sp.injEq, reduceCtorEq] at hf
+  exact spHash_mixed_ne (c := cfg) (by decide) _ _ hf.symm
+
+/-! ### (B) lookups as total decision functions -/
+
+/-- every indexed object is an exported object (no stale binding is reachable through an index) -/
+def chkIndexedExported : Bool :=
+  (subseqB El.beq indexedElements elements || indexedElements.all fun e => memEl e elements) &&
+  (subseqB Iso.beq indexedIsotopes isotopes || indexedIsotopes.all fun i => i.memB isotopes)
+theorem chk_indexed_exported : chkIndexedExported = true := by decide +kernel
+
+theorem all_indexed_exported :
+    (∀ e ∈ indexedElements, e ∈ elements) ∧ (∀ i ∈ indexedIsotopes, i ∈ isotopes) := by
+  have h := chk_indexed_exported
+  simp only [chkIndexedExported, Bool.and_eq_true, Bool.or_eq_true, List.all_eq_true] at h
+  refine ⟨fun e he => ?_, fun i hi => ?_⟩
+  · rcases h.1 with h1 | h1
+    · exact subseqB_sound (fun _ _ => El.beq_iff.mp) h1 e he
+    · exact memEl_iff.mp (h1 e he)
+  · rcases h.2 with h1 | h1
+    · exact subseqB_sound (fun _ _ => Iso.beq_iff.mp) h1 i hi
+    · have := h1 i hi
+      simp only [Iso.memB, List.any_eq_true, Iso.beq_iff] at this
+      obtain ⟨x, hx, rfl⟩ := this
+      exact hx
+
+/-- **`lookup_element` decides identifier membership** (every `str` argument `s`): it returns the element `e` iff `e` is
+exported and the lower-cased `s` is `e`'s lower-cased symbol, lower-cased name, or decimal atomic number; otherwise it
+raises.  Together with collision-freeness the answer is unique. -/
+theorem lookup_element_decision (s : Nat) (e : El) :
+    lookupElement elementIndex (.str s) = some e ↔
+      e ∈ elements ∧ (lower s = lower e.sym ∨ lower s = lower e.name ∨ lower s = strNat e.z) := by
+  rw [lookupElement_str]
+  constructor
+  · intro h
+    obtain ⟨h1, h2⟩ := get?_buildIndex_sound elementKeys indexedElements _ _ h
+    exact ⟨all_indexed_exported.1 e h1, by simpa [elementKeys] using h2⟩
+  · rintro ⟨he, hk⟩
+    exact el_key he (by simpa [elementKeys] using hk)
+
+/-- … and raises `ValueError` iff no exported element has that identifier -/
+theorem lookup_element_none_iff (s : Nat) :
+    lookupElement elementIndex (.str s) = none ↔
+      ∀ e ∈ elements, ¬ (lower s = lower e.sym ∨ lower s = lower e.name ∨ lower s = strNat e.z) := by
+  constructor
+  · intro h e he hk
+    have := (lookup_element_decision s e).mpr ⟨he, hk⟩
+    rw [h] at this
+    simp at this
+  · intro h
+    cases hl : lookupElement elementIndex (.str s) with
+    | none => rfl
+    | some e =>
+      obtain ⟨he, hk⟩ := (lookup_element_decision s e).mp hl
+      exact absurd hk (h e he)
+
+example : lookupElement elementIndex (.str (enc "unobtainium")) = none := by decide +kernel
+
+/-- **`lookup_isotope` (no number) decides identifier membership**: returns `i` iff `i` is exported and the lower-cased
+argument is its lower-cased symbol, name, `<element symbol><A>` or `<element name><A>` -/
+theorem lookup_isotope_decision (s : Nat) (i : Iso) :
+    lookupIsotope elementIndex isotopeIndex (.str s) none = some i ↔
+      i ∈ isotopes ∧ (lower s = lower i.base.sym ∨ lower s = lower i.base.name ∨
+        lower s = cat (lower i.parent.sym) (strNat i.a) ∨ lower s = cat (lower i.parent.name) (strNat i.a)) := by
+  rw [lookupIsotope_str]
+  constructor
+  · intro h
+    obtain ⟨h1, h2⟩ := get?_buildIndex_sound isotopeKeys indexedIsotopes _ _ h
+    exact ⟨all_indexed_exported.2 i h1, by simpa [isotopeKeys] using h2⟩
+  · rintro ⟨hi, hk⟩
+    exact iso_key hi (by simpa [isotopeKeys] using hk)
+
+/-- **`lookup_isotope(v, number=n)` decides**: for `n ≠ 0` and `v` not an isotope object it returns `i` iff `v` resolves
+(by `lookup_element`) to some element `e` and `(e.symbol + str(n)).lower()` is one of `i`'s four keys; for `n = i.a` that
+`e` is `i`'s own element (`lookup_isotope_only_by_own_element`) -/
+theorem lookup_isotope_number_decision (q : Query) (hq : ∀ j, q ≠ .isot j) (n : Int) (hn : n ≠ 0) (i : Iso) :
+    lookupIsotope elementIndex isotopeIndex q (some n) = some i ↔
+      ∃ e, lookupElement elementIndex q = some e ∧ i ∈ isotopes ∧ lower (cat e.sym (strInt n)) ∈ isotopeKeys i := by
+  rw [lookupIsotope_number _ _ _ hq _ hn]
+  constructor
+  · intro h
+    cases he : lookupElement elementIndex q with
+    | none => rw [he] at h; simp at h
+    | some e =>
+      rw [he] at h
+      obtain ⟨h1, h2⟩ := get?_buildIndex_sound isotopeKeys indexedIsotopes _ _ h
+      exact ⟨e, rfl, all_indexed_exported.2 i h1, h2⟩
+  · rintro ⟨e, he, hi, hk⟩
+    rw [he]
+    exact iso_key hi hk
+
+example : lookupIsotope elementIndex isotopeIndex (.str (enc "he")) (some 3) = some o_helium3 := by decide +kernel
+
+/-- **lookup normalisation**: whatever is passed — a `str` in any letter case, an `int`, a numpy integer (anything whose
+`str()` is the decimal numeral), or an `Isotope` object (through its `repr`) — `lookup_element` answers exactly as for the
+string `str(v)`; only an `Element` object short-circuits.  Likewise `lookup_isotope` without a number. -/
+theorem lookup_normalisation (q : Query) :
+    ((∀ e, q ≠ .elem e) → lookupElement elementIndex q = lookupElement elementIndex (.str q.str')) ∧
+    ((∀ i, q ≠ .isot i) → lookupIsotope elementIndex isotopeIndex q none =
+      lookupIsotope elementIndex isotopeIndex (.str q.str') none) := by
+  cases q with
+  | elem e => exact ⟨fun h => absurd rfl (h e), fun _ => rfl⟩
+  | isot i => exact ⟨fun _ => rfl, fun h => absurd rfl (h i)⟩
+  | str s => exact ⟨fun _ => rfl, fun _ => rfl⟩
+  | int n => exact ⟨fun _ => rfl, fun _ => rfl⟩
+
+example : lookupElement elementIndex (.int 26) = lookupElement elementIndex (.str (enc "26")) := by decide +kernel
+
+/- Full statement wanted:  `lookupElement elementIndex (.int n) = some e ↔ e ∈ elements ∧ n = e.z`  for every `n : Int`.
+   Proved below: ⇐ in full, ⇒ up to "the numeral `str(n)` is one of `e`'s three keys".  Missing for ⇒: `str` on `int` is
+   injective and a decimal numeral is never the lower-cased symbol or name of an element (needs a parser-inverse lemma for
+   `strNatAux` and a first-byte argument; checked exhaustively by K for n ∈ [-3, 124] ∪ {10^6, -2^31}). -/
+theorem lookup_element_int_decision_partial (n : Int) (e : El) :
+    (lookupElement elementIndex (.int n) = some e ↔ e ∈ elements ∧ lower (strInt n) ∈ elementKeys e) ∧
+    (e ∈ elements → n = e.z → lookupElement elementIndex (.int n) = some e) := by
+  refine ⟨?_, fun he hn => hn ▸ (lookup_element_roundtrip e he).2.2.2.1⟩
+  rw [lookupElement_int]
+  constructor
+  · intro h
+    obtain ⟨h1, h2⟩ := get?_buildIndex_sound elementKeys indexedElements _ _ h
+    exact ⟨all_indexed_exported.1 e h1, h2⟩
+  · rintro ⟨he, hk⟩
+    exact el_key he hk
+
+example : lookupElement elementIndex (.int (-6)) = none := by decide +kernel
+
+end deepening
+
 /-! ## non-vacuity -/
 
 /-- the table is not empty (lower bounds only: adding species must not break the build) -/
